@@ -86,6 +86,8 @@ class DummyFile(object):
         return False
 
     def write(self, x):
+        if not isinstance(x, str) and not (hasattr(x, 'kind') and x.kind == 'str'):
+            raise TypeError("write() argument must be str, not %s" % type(x).__name__)
         self.it.trace.append(('write', self.name, x))
 
     def read(self):
@@ -304,7 +306,7 @@ def contract_stubs(case, allow_raise):
         i = it.cfg['index'][old_block.tag]
         it.trace.append(('optimize', old_block))
         if allow_raise and it.cfg['opt_raises'][i]:
-            raise Boom("optimizer failed")
+            raise it.cfg['exc']
         return it.cfg['opt'][i], it.cfg['log'][i], [Marker('csv%d' % i)]
 
     def st_cmp(it, old_block, new_block, params):
@@ -335,6 +337,9 @@ def setup_blocks(H, n, allow_raise):
                opt_raises=[(H.choice('opt_raises%d' % i, [False, True]) if allow_raise else False) for i in range(n)],
                # compare_asm_block_asm_format never raises (its own contract, GateCompare): failures appear as eq = False
                cmp_raises=[False for i in range(n)])
+    # the failure may be any exception, including ones without a message (bare assert / raise ValueError)
+    excs = [Boom("optimizer failed"), AssertionError(), ValueError(), KeyError('k'), IndexError("i"), RecursionError()]
+    cfg['exc'] = excs[H.choice('exception_kind', list(range(len(excs))))] if allow_raise else None
     H.it.cfg = cfg
     return blocks, cfg
 
@@ -382,10 +387,11 @@ class GateContract(Case):
         return contract_stubs(self, self.allow_raise)
 
     def run(self, H):
-        blocks, cfg = setup_blocks(H, 3, self.allow_raise)
+        blocks, cfg = setup_blocks(H, 4, self.allow_raise)
         c = AsmContract("file.sol:C")
         c.init_code = [blocks[0], blocks[1]]
-        c.data = {"0": {"code": [blocks[2]], "auxdata": "aux"}}
+        # two sub-assemblies with code: each keeps its own instruction stream
+        c.data = {"0": {"code": [blocks[2]], "auxdata": "aux"}, "1": {"code": [blocks[3]]}}
         c.source_list = ["a.sol"]
         params = types.SimpleNamespace(forves_enabled=False)
         out = H.call(gasol_asm.optimize_asm_contract, c, params)
@@ -397,13 +403,15 @@ class GateContract(Case):
         check_gate(H, 'init:', blocks[:2], dict(cfg, eq=cfg['eq'][:2], opt=cfg['opt'][:2], log=cfg['log'][:2],
                                                 opt_raises=cfg['opt_raises'][:2], cmp_raises=cfg['cmp_raises'][:2]),
                    list(new_c.init_code), log_dicts, tr, ('gas', 'length'))
-        run = new_c.data["0"]["code"]
-        check_gate(H, 'run:', blocks[2:], dict(cfg, eq=cfg['eq'][2:], opt=cfg['opt'][2:], log=cfg['log'][2:],
-                                               opt_raises=cfg['opt_raises'][2:], cmp_raises=cfg['cmp_raises'][2:]),
-                   list(run), log_dicts, tr, ('gas', 'length', 'size'))
+        for j, ident in ((2, "0"), (3, "1")):
+            run = new_c.data[ident]["code"]
+            check_gate(H, 'run%s:' % ident, blocks[j:j + 1], dict(cfg, eq=cfg['eq'][j:j + 1], opt=cfg['opt'][j:j + 1], log=cfg['log'][j:j + 1],
+                                                                opt_raises=cfg['opt_raises'][j:j + 1], cmp_raises=cfg['cmp_raises'][j:j + 1]),
+                       list(run), log_dicts, tr, ('gas', 'length', 'size'))
         H.check('frame(contract metadata copied, input contract untouched)',
                 new_c is not c and new_c.contract_name == c.contract_name and new_c.source_list == ["a.sol"]
-                and new_c.data["0"]["auxdata"] == "aux" and list(c.init_code) == blocks[:2] and c.data["0"]["code"] == [blocks[2]])
+                and new_c.data["0"]["auxdata"] == "aux" and list(c.init_code) == blocks[:2] and c.data["0"]["code"] == [blocks[2]]
+                and c.data["1"]["code"] == [blocks[3]] and set(new_c.data.keys()) == {"0", "1"})
         cmp_calls = [t for t in tr if t[0] == 'compare']
         H.check('every-block-re-verified-against-its-original',
                 all(any(t[1] is b for t in cmp_calls) for i, b in enumerate(blocks) if not cfg['opt_raises'][i]))
